@@ -116,6 +116,18 @@ def run_job(job):
         after = snapshot(est, None)
         out["transform"] = [[float(v) for v in row] for row in T1]
         out["transform_repeat_identical"] = bool(np.array_equal(T1, T2))
+        # the same data matrix in other accepted forms: nested list, and (one column only) the flat sequence of its samples
+        forms = {"nested_list": [list(map(float, row)) for row in X]}
+        if X.shape[1] == 1:
+            forms["flat_array"] = X[:, 0].copy()
+            forms["flat_list"] = [float(v) for v in X[:, 0]]
+        out["input_forms"] = {}
+        for name, Xf in forms.items():
+            try:
+                Tf = np.asarray(est.transform(Xf), dtype=float)
+                out["input_forms"][name] = [[float(v) for v in row] for row in Tf.reshape((Tf.shape[0], -1))] if Tf.ndim >= 1 and Tf.size else []
+            except Exception as e:  # noqa
+                out["input_forms"][name] = {"err": f"{type(e).__name__}: {e}"[:300]}
         out["mahalanobis"] = [float(v) for v in Mh]
         out["score"] = float(sc[0])
         out["score_terms"] = [float(x) for x in sc[1]]
